@@ -91,7 +91,7 @@ PROPS = {
     'C13': {'level': 'model_checking', 'mc': [MC_SNAP], 'families': [fam('trunc', 'c13', 8, 16, shards=8), fam('trunc', 'c13t', 0, 8, shards=8),
                          fam('truncbig', 'some', 4, 0, shards=4, trace={'module': 'PrefixTrace', 'cfg': 'PrefixTrace.cfg'}),
                          fam('truncbig', 'all', 0, 8, shards=8, trace={'module': 'PrefixTrace', 'cfg': 'PrefixTrace.cfg'})], 'trace': COLUMN_TRACE, 'assumptions': []},
-    'C14': {'level': 'model_checking', 'mc': [MC_SNAP_FAIL], 'families': [fam('fault', 'c14', 12, 12, shards=6), fam('fault', 'c14t', 0, 6, shards=6)], 'trace': COLUMN_TRACE, 'assumptions': []},
+    'C14': {'level': 'model_checking', 'mc': [MC_SNAP_FAIL], 'families': [fam('fault', 'c14', 12, 12, shards=6), fam('fault', 'c14big', 2, 8, shards=2), fam('fault', 'c14t', 0, 6, shards=6)], 'trace': COLUMN_TRACE, 'assumptions': []},
     'C15': seq_prop('c15', 100, 2000, mc=[MC_CONC_STRICT], more=[fam('conc', 'c15', 32, 500)]),
     'C16': seq_prop('c16', 150, 2500, mc=[MC_STORE_STRICT, MC_SCHEMA, MC_SCHEMA_COLS]),
     'C17': {'level': 'model_checking', 'assumptions': ['wall-clock: removals are timestamped inside the logger callback; "must be gone" leaves 10 intervals + 3 s of slack'],
